@@ -132,7 +132,7 @@ def run(ctx):
     race_reports = []
     for p, out, pr in procs:
         log, _ = pr.communicate(timeout=3000)
-        for rf in glob.glob(os.path.join(ctx.tmp, 'race_%d*' % p)):
+        for rf in glob.glob(os.path.join(ctx.tmp, 'race_%d.*' % p)):
             race_reports.append({'procs': p, 'report': open(rf, errors='replace').read()[:6000]})
         if pr.returncode not in (0, 66):
             raise RuntimeError('c01 harness (GOMAXPROCS=%d) failed rc=%s: %s' % (p, pr.returncode, log[-3000:]))
